@@ -130,6 +130,12 @@ func ruleSegmentIntroducerObsoletes(r *Report, in introducers) {
 				if rootVars[base] {
 					hasOld = true
 				}
+				// the element variable of a loop over the old root's segments
+				for b := range d.Slice(base) {
+					if rootVars[b] || (strings.HasPrefix(b, "v:") && strings.HasSuffix(b, ".segment") && rootVars[b[:strings.LastIndex(b, ".")]]) {
+						hasOld = true
+					}
+				}
 			}
 		}
 		r.Ob(rule, fi.Name+"/"+v.Name()+".deleted<-old-exclusion", stores[0].Stmt.Pos(), hasOld,
